@@ -393,3 +393,39 @@ Fixpoint groupedb (ds : list nat) : bool :=
 
 Definition wvalid (W : world) (n : lnode) : bool :=
   (fst n <? length W) && valid (wtree W (fst n)) (snd n).
+
+(* ---- several documents: specification of the insertion that keeps the nodes of a document together.
+   The list is a sequence of blocks, one per document, in order of first appearance; [seen] = nodes of the
+   node's own document have been passed *)
+Fixpoint minsert (W : world) (n : lnode) (l : list lnode) (seen : bool) : list lnode :=
+  match l with
+  | [] => [n]
+  | c :: r =>
+    if fst n =? fst c then
+      if key W n <? key W c then n :: l
+      else if key W n =? key W c then l
+      else c :: minsert W n r true
+    else if seen then n :: l
+    else c :: minsert W n r false
+  end.
+
+(* the grouped-blocks invariant: inside a document strictly ascending, and a document's nodes contiguous
+   (once the list leaves a document it never returns to it) *)
+Fixpoint ginvb (W : world) (l : list lnode) : bool :=
+  match l with
+  | [] => true
+  | c :: r =>
+    forallb (fun m => negb (fst m =? fst c) || (key W c <? key W m)) r
+    && match r with
+       | [] => true
+       | b :: _ => (fst b =? fst c) || forallb (fun m => negb (fst m =? fst c)) r
+       end
+    && ginvb W r
+  end.
+
+Definition honest_multi (W : world) (l : nlist) : bool :=
+  match ord l with
+  | Unknown => true
+  | DocOrder => ginvb W (items l)
+  | RevOrder => ginvb W (rev (items l))
+  end.
